@@ -378,8 +378,14 @@ theorem recoverWal_cap (m0 : Mem) (ft : Nat) (w : Within m0.frames m0.payloadEnd
     · rename_i ma δ h1
       obtain ⟨p, w1, ws, tc, _, _⟩ := applyRecords_cap m0 m0.pending true ma δ h1 w
       simp only [hf, Bool.false_eq_true, if_false] at p
-      have hk := Keeps.trans (checkpoint_keeps _) (Keeps.trans (persistSketch_keeps _) (rebuildOrFlush_keeps ma δ ft))
-      exact ⟨Nat.le_trans (Nat.le_of_eq hk.pe) p, hk.within w1, hk.ws.trans ws, hk.tc.trans tc, rfl⟩
+      -- whatever bookkeeping wraps the rebuilt / flushed handle (sketch persist, footer, checkpoint) touches
+      -- none of the four fields: the goals are definitionally about the `if … then rebuild else flush` handle
+      have hX := rebuildOrFlush_keeps ma δ ft
+      refine ⟨?_, ?_, ?_, ?_, rfl⟩
+      · exact Nat.le_trans (Nat.le_of_eq hX.pe) p
+      · exact hX.within w1
+      · exact hX.ws.trans ws
+      · exact hX.tc.trans tc
 
 /-- `open_locked` when no payload is pending -/
 theorem openFrom_capnum (m : Mem) (ft : Nat) (h : CapNum m) (hf : hasFresh m.pending = false) :
@@ -658,6 +664,12 @@ theorem C24_unrepaired_counterexample :
 example : (traceR Mem.create witnessPending).map (·.2) = [.ok, .seq 1, .err "capacity", .ok] ∧
     (runR Mem.create witnessPending).payloadEnd = 2000 ∧
     (runR Mem.create witnessPending).absEnd ≤ (runR Mem.create witnessPending).capacityLimit := by decide
+
+/-- non-vacuity of the rejection theorems: the third operation of the witness IS answered
+    CapacityExceeded by the repaired handle, carries no embedding, and leaves one record pending -/
+example : (stepR (runR Mem.create (witnessPending.take 2)) (binPut 2000 "b" 101)).2 = .err "capacity" ∧
+    embDims ({ ts := 101, content := "b", len := 2000, plen := 2000 } : PutArgs) = [] ∧
+    (runR Mem.create (witnessPending.take 2)).pendingBytes = 2000 := by decide
 
 example : ScopedRun Mem.create witnessPending :=
   ⟨⟨by decide, by decide⟩, rfl, rfl, trivial, trivial⟩
